@@ -47,6 +47,15 @@ Min2(a, b) == IF a <= b THEN a ELSE b
 Replied(a) == a.res = "ok"
 
 (* ---------------------------- C01 ------------------------------------- *)
+(* "holds(c,x,t)": a reply with yiaddr = x was produced for c and the      *)
+(* lease recorded for it is unexpired.  The client column of `pre` must    *)
+(* therefore say who was last TOLD x; the trace follower guarantees that   *)
+(* by overriding the stored client column with its own ghost record of     *)
+(* the last successful reply per address (WithTold below); in the model    *)
+(* the two coincide by construction.                                       *)
+WithTold(pre, told) ==
+    [x \in DOMAIN pre |-> IF x \in DOMAIN told /\ told[x] # 0 /\ Has(pre[x])
+                          THEN [pre[x] EXCEPT !.c = told[x]] ELSE pre[x]]
 C01Step(pre, a, post) ==
     Replied(a) => ~(LiveC(Row(pre, a.y), a.dt) /\ Row(pre, a.y).c # a.c)
 C01Shape(pre, a, post) == "liveLeaseOfOtherClientReassigned"
